@@ -140,3 +140,631 @@ def touch_sop(it, D0, o, s, c, n):
     for num in (n, z3.IntVal(1)):
         run.assume(is_some(OP(), D0['D.sop'][okey(o, s, c, num)]) == z3.And(num >= 1, num <= OPCOUNT(o, s, c)))
     run.assume(z3.Implies(is_some(OP(), D0['D.sop'][okey(o, s, c, n)]), is_some(ST(), D0['D.study'][skey(o, s)])))
+
+
+# ------------------------------------------------------------------------------------------ f-strings of resources.py
+_INV = {}
+_orig_format_string = M.format_string
+
+
+def fstr_inv(decl, i, sort):
+    key = (decl.name(), i)
+    if key not in _INV:
+        _INV[key] = z3.Function('inv_%s_%d' % (decl.name().replace('!', '_'), i), Str, sort)
+    return _INV[key]
+
+
+def _format_string(it, parts):
+    r = _orig_format_string(it, parts)
+    if z3.is_expr(r) and z3.is_app(r) and r.decl().name().startswith('fstr!') and it.stack and it.stack[-1].mod.dotted == RES:
+        key = ('fstr.inj', r.get_id())
+        if key not in it.run.instantiated:
+            it.run.instantiated.add(key)
+            for i, ch in enumerate(r.children()):
+                it.run.assume(fstr_inv(r.decl(), i, ch.sort())(r) == ch)
+    return r
+
+
+M.format_string = _format_string
+
+
+class OpId:
+    """`resource.operation_id` of the real resources.py as a function of its components (evaluated once per path on
+    placeholder components), with the projection onto the number component."""
+
+    def __init__(self, it, cls_name, attrs, num_attr):
+        self.ph = {a: z3.Const('ph_%s_%s' % (cls_name, a), I if a == num_attr else Str) for a in attrs}
+        o = Obj(S.res_class(cls_name), dict(self.ph))
+        self.term = E.to_z3(it.getattr(o, 'operation_id'))
+        self.attrs, self.num_attr = attrs, num_attr
+        if not (z3.is_app(self.term) and self.term.decl().name().startswith('fstr!')):
+            raise Unsupported('%s.operation_id is not an f-string of its components' % cls_name)
+        pos = [i for i, ch in enumerate(self.term.children()) if ch.eq(self.ph[num_attr])]
+        if len(pos) != 1:
+            raise Unsupported('%s.operation_id does not contain %s exactly once' % (cls_name, num_attr))
+        self.num = fstr_inv(self.term.decl(), pos[0], I)
+
+    def __call__(self, **kw):
+        subs = [(self.ph[a], kw[a]) for a in self.attrs if a in kw]
+        return z3.substitute(self.term, *subs)
+
+
+# ------------------------------------------------------------------------------------------ the symbolic store
+class Store:
+    pass
+
+
+def msg_term(v, sch):
+    if isinstance(v, Msg) and v.schema.fq == sch.fq:
+        return v.pack()
+    raise Unsupported('a stored value is not a %s message: %r' % (sch.fq, v))
+
+
+def node_attr(v, a):
+    if not isinstance(v, Obj) or a not in v.attrs:
+        raise Unsupported('a stored node has no attribute %s: %r' % (a, v))
+    return v.attrs[a]
+
+
+def build_store(it):
+    """self of NestedDictRAMDataStore with `_owners` = Rep^-1(D0), lazily."""
+    run = it.run
+    D0 = run.D0
+    mod = ModuleInfo.get(RAM)
+    st = Store()
+    st.ctx = LZ.StoreCtx(D0['D.next'])
+    st.D0 = D0
+    st.cls = mod.classes[CLS]
+    st.sopid = OpId(it, 'SuggestionOperationResource', ['owner_id', 'study_id', 'client_id', 'operation_number'], 'operation_number')
+    st.eopid = OpId(it, 'EarlyStoppingOperationResource', ['owner_id', 'study_id', 'trial_id'], 'trial_id')
+    ctx = st.ctx
+    ONode, SNode, CNode = mod.classes['OwnerNode'], mod.classes['StudyNode'], mod.classes['ClientNode']
+
+    K_TRIAL = LZ.Kind(T(), lambda m: msg_term(m, T()), lambda term: Msg.from_term(T(), term))
+    K_OP = LZ.Kind(OP(), lambda m: msg_term(m, OP()), lambda term: Msg.from_term(OP(), term))
+    K_EOP = LZ.Kind(EO(), lambda m: msg_term(m, EO()), lambda term: Msg.from_term(EO(), term), ordered=False)
+    K_STUDY = LZ.Kind(ST(), lambda node: msg_term(node_attr(node, 'study_proto'), ST()),
+                      lambda term: Obj(SNode, {'study_proto': Msg.from_term(ST(), term), 'trial_protos': LZ.Poison('trial_protos of a listed node'),
+                                               'early_stopping_operations': LZ.Poison('early_stopping_operations of a listed node'),
+                                               'clients': LZ.Poison('clients of a listed node')}))
+    K_NODE = LZ.Kind(None, None, None, ordered=False)
+
+    def trials_bg(o, s):
+        k = lambda t: tkey(o, s, t)
+        return LZ.Background(
+            has=lambda t: is_some(T(), D0['D.trial'][k(t)]), make=lambda it_, t: Msg.from_term(T(), val(T(), D0['D.trial'][k(t)])),
+            ord=lambda t: D0['D.seq'][k(t)], vterm=lambda t: val(T(), D0['D.trial'][k(t)]), count=NTRIALS(o, s),
+            lookup={'trial': lambda t: D0['D.trial'][k(t)], 'seq_trial': lambda t: D0['D.seq'][k(t)]},
+            touch=lambda it_, t: touch_trial(it_, D0, o, s, t))
+
+    def eops_bg(o, s):
+        num = st.eopid.num
+        wf = lambda ks: ks == st.eopid(study_id=s, trial_id=num(ks))
+        return LZ.Background(
+            has=lambda ks: z3.And(wf(ks), is_some(EO(), D0['D.eop'][ekey(o, s, num(ks))])),
+            make=lambda it_, ks: Msg.from_term(EO(), val(EO(), D0['D.eop'][ekey(o, s, num(ks))])),
+            vterm=lambda ks: val(EO(), D0['D.eop'][ekey(o, s, num(ks))]),
+            lookup={'eop': lambda ks, t: D0['D.eop'][ekey(o, s, t)]},
+            touch=lambda it_, ks: touch_eop(it_, D0, o, s, num(ks)))
+
+    def sops_bg(o, s, c):
+        num = st.sopid.num
+        wf = lambda ks: ks == st.sopid(study_id=s, client_id=c, operation_number=num(ks))
+        return LZ.Background(
+            has=lambda ks: z3.And(wf(ks), is_some(OP(), D0['D.sop'][okey(o, s, c, num(ks))])),
+            make=lambda it_, ks: Msg.from_term(OP(), val(OP(), D0['D.sop'][okey(o, s, c, num(ks))])),
+            ord=lambda ks: D0['D.seq'][okey(o, s, c, num(ks))], vterm=lambda ks: val(OP(), D0['D.sop'][okey(o, s, c, num(ks))]),
+            count=OPCOUNT(o, s, c),
+            lookup={'sop': lambda ks, n: D0['D.sop'][okey(o, s, c, n)], 'seq_sop': lambda ks, n: D0['D.seq'][okey(o, s, c, n)]},
+            touch=lambda it_, ks: touch_sop(it_, D0, o, s, c, num(ks)))
+
+    def clients_bg(o, s):
+        return LZ.Background(
+            has=lambda c: is_some(OP(), D0['D.sop'][okey(o, s, c, z3.IntVal(1))]),
+            make=lambda it_, c: Obj(CNode, {'suggestion_operations': LZ.LazyDict('suggestion_operations', Str, ctx, K_OP, sops_bg(o, s, c))}),
+            lookup={'sop': lambda c, n: D0['D.sop'][okey(o, s, c, n)], 'seq_sop': lambda c, n: D0['D.seq'][okey(o, s, c, n)],
+                    'client': lambda c: is_some(OP(), D0['D.sop'][okey(o, s, c, z3.IntVal(1))])},
+            touch=lambda it_, c: touch_sop(it_, D0, o, s, c, z3.IntVal(1)))
+
+    def make_study(it_, o, s):
+        return Obj(SNode, {
+            'study_proto': Msg.from_term(ST(), val(ST(), D0['D.study'][skey(o, s)])),
+            'trial_protos': LZ.LazyDict('trial_protos', I, ctx, K_TRIAL, trials_bg(o, s)),
+            'early_stopping_operations': LZ.LazyDict('early_stopping_operations', Str, ctx, K_EOP, eops_bg(o, s)),
+            'clients': LZ.LazyDict('clients', Str, ctx, K_NODE, clients_bg(o, s))})
+
+    def studies_bg(o):
+        return LZ.Background(
+            has=lambda s: is_some(ST(), D0['D.study'][skey(o, s)]), make=lambda it_, s: make_study(it_, o, s),
+            ord=lambda s: D0['D.seq'][skey(o, s)], vterm=lambda s: val(ST(), D0['D.study'][skey(o, s)]),
+            lookup={'study': lambda s: D0['D.study'][skey(o, s)], 'seq_study': lambda s: D0['D.seq'][skey(o, s)],
+                    'trial': lambda s, t: D0['D.trial'][tkey(o, s, t)], 'seq_trial': lambda s, t: D0['D.seq'][tkey(o, s, t)],
+                    'eop': lambda s, t: D0['D.eop'][ekey(o, s, t)],
+                    'sop': lambda s, c, n: D0['D.sop'][okey(o, s, c, n)], 'seq_sop': lambda s, c, n: D0['D.seq'][okey(o, s, c, n)],
+                    'client': lambda s, c: is_some(OP(), D0['D.sop'][okey(o, s, c, z3.IntVal(1))])},
+            touch=lambda it_, s: touch_study(it_, D0, o, s))
+
+    owners_bg = LZ.Background(
+        has=lambda o: OWN0[o], make=lambda it_, o: Obj(ONode, {'studies': LZ.LazyDict('studies', Str, ctx, K_STUDY, studies_bg(o))}),
+        lookup={'study': lambda o, s: D0['D.study'][skey(o, s)], 'seq_study': lambda o, s: D0['D.seq'][skey(o, s)],
+                'trial': lambda o, s, t: D0['D.trial'][tkey(o, s, t)], 'seq_trial': lambda o, s, t: D0['D.seq'][tkey(o, s, t)],
+                'eop': lambda o, s, t: D0['D.eop'][ekey(o, s, t)],
+                'sop': lambda o, s, c, n: D0['D.sop'][okey(o, s, c, n)], 'seq_sop': lambda o, s, c, n: D0['D.seq'][okey(o, s, c, n)],
+                'client': lambda o, s, c: is_some(OP(), D0['D.sop'][okey(o, s, c, z3.IntVal(1))])})
+    st.owners = LZ.LazyDict('_owners', Str, ctx, K_NODE, owners_bg)
+    st.lock = M.LockObj('_lock')
+    st.self = Obj(st.cls, {'_lock': st.lock})
+    st.self.c07_store = st
+    return st
+
+
+def _owners_property(it, obj):
+    st = getattr(obj, 'c07_store', None)
+    if st is None:
+        raise Unsupported('NestedDictRAMDataStore._owners of an object that was not built by C07')
+    st.ctx.record(it, 'self._owners', st.owners)
+    return st.owners
+
+
+E.PROPERTIES['%s:%s._owners' % (RAM, CLS)] = _owners_property
+
+
+# ------------------------------------------------------------------------------------------ abstraction function alpha
+class PEntry:
+    """pseudo entry for an item of a concrete dict created by the code under contract."""
+
+    def __init__(self, value, ord):
+        self.value, self.ord, self.present = value, ord, True
+
+
+def chain(st, d, k, on_entry, bgkind, subkeys, absent):
+    """value of `d` at the generic key k as a z3 term (dict created lazily from D0, or a concrete dict built by the code)."""
+    if isinstance(d, LZ.LazyDict):
+        if d.ksort != k.sort():
+            raise Unsupported('store dict %r has keys of sort %s, expected %s' % (d, d.ksort, k.sort()))
+        if d.bg is not None and bgkind not in d.bg.lookup:
+            raise Unsupported('store dict %r is used at a position where it cannot be (%s)' % (d, bgkind))
+        return d.chain(k, on_entry, lambda k_: d.bg.lookup[bgkind](k_, *subkeys), absent)
+    if isinstance(d, M.PyDict):
+        r = absent
+        for idx, (key, v) in enumerate(d.items_):
+            kt = LZ.key_term(key)
+            if kt is None or kt.sort() != k.sort():
+                raise Unsupported('a dict built by the code has a key of an unexpected type: %r' % (key,))
+            r = z3.If(k == kt, on_entry(PEntry(v, st.ctx.tick0 + idx)), r)
+        return r
+    raise Unsupported('store component is not a dict: %r' % (d,))
+
+
+def _studies(st, o, s, at_study, kind, sub, absent):
+    return chain(st, st.owners, o,
+                 lambda eo: chain(st, node_attr(eo.value, 'studies'), s, at_study, kind, sub, absent),
+                 kind, (s,) + sub, absent)
+
+
+def A_owner(st, o):
+    return st.owners.has_term(o)
+
+
+def A_study(st, o, s):
+    return _studies(st, o, s, lambda e: some(ST(), msg_term(node_attr(e.value, 'study_proto'), ST())), 'study', (), none(ST()))
+
+
+def A_seq_study(st, o, s):
+    return _studies(st, o, s, lambda e: e.ord if e.ord is not None else z3.IntVal(-1), 'seq_study', (), z3.IntVal(-1))
+
+
+def A_trial(st, o, s, t):
+    return _studies(st, o, s, lambda e: chain(st, node_attr(e.value, 'trial_protos'), t, lambda et: some(T(), msg_term(et.value, T())),
+                                              'trial', (), none(T())), 'trial', (t,), none(T()))
+
+
+def A_seq_trial(st, o, s, t):
+    return _studies(st, o, s, lambda e: chain(st, node_attr(e.value, 'trial_protos'), t, lambda et: et.ord if et.ord is not None else z3.IntVal(-1),
+                                              'seq_trial', (), z3.IntVal(-1)), 'seq_trial', (t,), z3.IntVal(-1))
+
+
+def A_eop(st, o, s, t):
+    ks = st.eopid(study_id=s, trial_id=t)
+    return _studies(st, o, s, lambda e: chain(st, node_attr(e.value, 'early_stopping_operations'), ks,
+                                              lambda ee: some(EO(), msg_term(ee.value, EO())), 'eop', (t,), none(EO())), 'eop', (t,), none(EO()))
+
+
+def A_client(st, o, s, c):
+    return _studies(st, o, s, lambda e: chain(st, node_attr(e.value, 'clients'), c, lambda ec: z3.BoolVal(True), 'client', (), z3.BoolVal(False)),
+                    'client', (c,), z3.BoolVal(False))
+
+
+def _ops(st, o, s, c, n, at_op, kind, absent):
+    ks = st.sopid(study_id=s, client_id=c, operation_number=n)
+    return _studies(st, o, s, lambda e: chain(st, node_attr(e.value, 'clients'), c,
+                                              lambda ec: chain(st, node_attr(ec.value, 'suggestion_operations'), ks, at_op, kind, (n,), absent),
+                                              kind, (n,), absent), kind, (c, n), absent)
+
+
+def A_sop(st, o, s, c, n):
+    return _ops(st, o, s, c, n, lambda eo: some(OP(), msg_term(eo.value, OP())), 'sop', none(OP()))
+
+
+def A_seq_sop(st, o, s, c, n):
+    return _ops(st, o, s, c, n, lambda eo: eo.ord if eo.ord is not None else z3.IntVal(-1), 'seq_sop', z3.IntVal(-1))
+
+
+def new_concrete_entries(st):
+    """number of ordered entries (studies / trials / suggestion operations) living in dicts created by the code itself."""
+    n = 0
+
+    def dict_items(d):
+        if isinstance(d, M.PyDict):
+            return [(True, v) for _, v in d.items_]
+        if isinstance(d, LZ.LazyDict):
+            return [(False, e.value) for e in d.entries if e.present]
+        return []
+
+    for _, on in dict_items(st.owners):
+        for new_s, sn in dict_items(node_attr(on, 'studies')):
+            n += 1 if new_s else 0
+            n += sum(1 for new_t, _ in dict_items(node_attr(sn, 'trial_protos')) if new_t)
+            for _, cn in dict_items(node_attr(sn, 'clients')):
+                n += sum(1 for new_o, _ in dict_items(node_attr(cn, 'suggestion_operations')) if new_o)
+    return n
+
+
+def store_objects(st):
+    """python objects the store consists of (for the identity clauses)."""
+    return LZ.reach([st.owners] + list(st.ctx.alias_objs))
+
+
+def tree_violations(st):
+    """nodes / containers / messages reachable by two different paths from `_owners`."""
+    seen, dup = {}, []
+
+    def visit(v, path):
+        if v is None or isinstance(v, (bool, int, float, str, bytes)) or z3.is_expr(v) or isinstance(v, LZ.Poison):
+            return
+        if id(v) in seen:
+            dup.append('%s and %s' % (seen[id(v)], path))
+            return
+        seen[id(v)] = path
+        if isinstance(v, LZ.LazyDict):
+            for i, e in enumerate(e for e in v.entries if e.present):
+                visit(e.value, '%s[%s]' % (path, e.key))
+        elif isinstance(v, M.PyDict):
+            for k, x in v.items_:
+                visit(x, '%s[%s]' % (path, k))
+        elif isinstance(v, Obj):
+            for a, x in v.attrs.items():
+                visit(x, '%s.%s' % (path, a))
+        elif isinstance(v, (list, tuple)):
+            for i, x in enumerate(v):
+                visit(x, '%s[%d]' % (path, i))
+    visit(st.owners, '_owners')
+    return dup
+
+
+# ------------------------------------------------------------------------------------------ evaluating the contract
+POST_CALLERS = {'_fresh_list', 'max_id_of', 'add_key_fact', 'ds_list_studies', 'ds_list_trials', 'ds_list_sops', 'ds_max_sop_number'}
+EITHER = 'ValueError|NotFoundError'
+FLT = None
+
+
+def filter_symbol():
+    global FLT
+    if FLT is None:
+        FLT = z3.Function('c07_filter_fn', pm.msg_sort(OP()), z3.BoolSort())
+    return FLT
+
+
+def run_contract(it, method, args, owner_exists):
+    """Evaluate servicer_model.ds_<method> on the ghost view.  Returns (outcome, captured postcondition facts, requires).
+    * facts that the contract *assumes about its fresh result* are captured instead of assumed (they are obligations here);
+    * `requires` obligations of the contract become assumptions;
+    * the contract's nondeterministic choices are resolved angelically (see ASSUMPTIONS)."""
+    run = it.run
+    captured, requires = [], []
+    R = type(run)
+
+    def assume(c):
+        if sys._getframe(1).f_code.co_name in POST_CALLERS:
+            captured.append(('assume', c))
+            return
+        R.assume(run, c)
+
+    def axiom(c):
+        if sys._getframe(1).f_code.co_name in POST_CALLERS:
+            captured.append(('axiom', c))
+            return
+        R.axiom(run, c)
+
+    def oblige(name, formula, info=None):
+        if name.startswith('datastore.') and '.requires.' in name:
+            requires.append(name)
+            R.assume(run, formula)
+            return
+        R.oblige(run, name, formula, info)
+
+    def choose(cond):
+        if z3.is_expr(cond) and z3.is_const(cond) and cond.decl().name().startswith('owner_exists!'):
+            if owner_exists is None:
+                raise Unsupported('the contract asks whether an owner exists in a method where C07 did not expect it')
+            return R.choose(run, owner_exists)
+        return R.choose(run, cond)
+
+    old_malformed = S._malformed
+    S._malformed = lambda it_: PyRaise(ExcObj(E.BuiltinClass(EITHER), {'args': ('malformed resource name',)}))
+    run.assume, run.axiom, run.oblige, run.choose = assume, axiom, oblige, choose
+    try:
+        try:
+            out = ('return', S.DS_METHODS[method](it, [None] + list(args), {}))
+        except PyRaise as pr:
+            out = ('raise', pr.exc)
+    finally:
+        S._malformed = old_malformed
+        for a in ('assume', 'axiom', 'oblige', 'choose'):
+            run.__dict__.pop(a, None)
+        run.key_facts = []
+    return out, captured, requires
+
+
+# ------------------------------------------------------------------------------------------ arguments
+class Rec:
+    pass
+
+
+def sym_msg(sch, name):
+    return Msg.from_term(sch, z3.Const(name, pm.msg_sort(sch)))
+
+
+def make_args(it, method, variant):
+    """(impl args, contract args, info) -- the contract gets its own python objects (identity clauses look at the impl's)."""
+    a = Rec()
+    a.kind = None
+    nm = z3.Const('a_name', Str)
+    if method in ('create_study', 'update_study'):
+        a.impl, a.spec = [sym_msg(ST(), 'a_study')], [sym_msg(ST(), 'a_study')]
+        a.kind, a.name = 'study', acc(ST(), 'name')(z3.Const('a_study', pm.msg_sort(ST())))
+    elif method in ('load_study', 'delete_study', 'list_trials', 'max_trial_id'):
+        a.impl, a.spec, a.kind, a.name = [nm], [nm], 'study', nm
+    elif method == 'list_studies':
+        a.impl, a.spec, a.kind, a.name = [nm], [nm], 'owner', nm
+    elif method in ('create_trial', 'update_trial'):
+        a.impl, a.spec = [sym_msg(T(), 'a_trial')], [sym_msg(T(), 'a_trial')]
+        a.kind, a.name = 'trial', acc(T(), 'name')(z3.Const('a_trial', pm.msg_sort(T())))
+    elif method in ('get_trial', 'delete_trial'):
+        a.impl, a.spec, a.kind, a.name = [nm], [nm], 'trial', nm
+    elif method in ('create_suggestion_operation', 'update_suggestion_operation'):
+        a.impl, a.spec = [sym_msg(OP(), 'a_op')], [sym_msg(OP(), 'a_op')]
+        a.kind, a.name = 'sop', acc(OP(), 'name')(z3.Const('a_op', pm.msg_sort(OP())))
+    elif method == 'get_suggestion_operation':
+        a.impl, a.spec, a.kind, a.name = [nm], [nm], 'sop', nm
+    elif method in ('create_early_stopping_operation', 'update_early_stopping_operation'):
+        a.impl, a.spec = [sym_msg(EO(), 'a_eop')], [sym_msg(EO(), 'a_eop')]
+        a.kind, a.name = 'eop', acc(EO(), 'name')(z3.Const('a_eop', pm.msg_sort(EO())))
+    elif method == 'get_early_stopping_operation':
+        a.impl, a.spec, a.kind, a.name = [nm], [nm], 'eop', nm
+    elif method in ('list_suggestion_operations', 'max_suggestion_operation_number'):
+        cl = z3.Const('a_client', Str)
+        a.impl, a.spec, a.kind, a.name, a.client = [nm, cl], [nm, cl], 'study', nm, cl
+        if method == 'list_suggestion_operations':
+            f = filter_symbol()
+            flt = Builtin('filter_fn', lambda it_, args, kw: f(args[0].pack())) if variant == 'filter' else None
+            a.impl, a.spec = [nm, cl, flt], [nm, cl, flt]
+    elif method == 'update_metadata':
+        KV, UMU = S.schema('vizier.KeyValue'), S.schema('vizier.UnitMetadataUpdate')
+
+        def kvs():
+            return SymList(z3.Const('a_smd_n', I), z3.Const('a_smd', z3.ArraySort(I, pm.msg_sort(KV))), KV)
+        it.run.assume(z3.Const('a_smd_n', I) >= 0)
+        k = int(variant)
+        a.impl = [nm, kvs(), [sym_msg(UMU, 'a_tmd%d' % i) for i in range(k)]]
+        a.spec = [nm, kvs(), [sym_msg(UMU, 'a_tmd%d' % i) for i in range(k)]]
+        a.kind, a.name = 'study', nm
+    else:
+        raise Unsupported('no argument description for method %s' % method)
+    return a
+
+
+def make_entry(method, variant):
+    def entry(it):
+        run = it.run
+        S.init_view(run)
+        for ax in inv_axioms(run.D0):
+            run.axiom(ax)
+        st = build_store(it)
+        a = make_args(it, method, variant)
+        n = S.parse_name(it, a.name)
+        owner_exists = OWN0[Name.o0(n)] if method == 'list_studies' else None
+        c_out, captured, requires = run_contract(it, method, a.spec, owner_exists)
+        rec = Rec()
+        rec.method, rec.variant, rec.st, rec.args, rec.key = method, variant, st, a, n
+        rec.contract, rec.captured, rec.requires = c_out, captured, requires
+        rec.D0, rec.D1 = run.D0, dict(run.ghost)
+        if method not in st.cls.methods:
+            raise Unsupported('%s.%s does not exist in the current tree' % (CLS, method))
+        fv = E.FuncVal(st.cls.mod, st.cls.methods[method], st.cls)
+        try:
+            rec.impl = ('return', it.invoke(fv, [st.self] + list(a.impl), {}))
+        except PyRaise as pr:
+            rec.impl = ('raise', pr.exc)
+        rec.tick = st.ctx.tick
+        return rec
+    return entry
+
+
+# ------------------------------------------------------------------------------------------ postconditions
+LIST_METHODS = ('list_studies', 'list_trials', 'list_suggestion_operations')
+RESULT_CLAUSES = {
+    'list_studies': ['result.len', 'result.members', 'result.complete', 'order'],
+    'list_trials': ['result.len', 'result.members', 'result.complete', 'order'],
+    'list_suggestion_operations': ['result.len', 'result.members', 'result.complete', 'order'],
+    'max_trial_id': ['result.nonneg', 'result.upper_bound', 'result.attained'],
+    'max_suggestion_operation_number': ['result.positive', 'result.exists', 'result.upper_bound', 'result.is_last'],
+}
+COMMON_CLAUSES = ['error_class', 'result', 'effect', 'effect.stamps', 'frame', 'error_leaves_data_unchanged', 'rep.clients',
+                  'by_value.result', 'by_value.argument', 'tree_ownership', 'lock']
+ELEM = {'list_studies': ST, 'list_trials': T, 'list_suggestion_operations': OP}
+
+
+def clause_names(method):
+    names = list(COMMON_CLAUSES) + RESULT_CLAUSES.get(method, [])
+    if method == 'list_studies':
+        names.append('missing_owner_has_no_study')
+    return names
+
+
+def B(b):
+    return z3.BoolVal(bool(b))
+
+
+def values_equal(a, b):
+    """python-side result values -> z3 Bool (same class and field-wise equal)."""
+    if a is None or b is None:
+        return B(a is None and b is None)
+    if isinstance(a, Msg) and isinstance(b, Msg):
+        return a.pack() == b.pack() if a.schema.fq == b.schema.fq else B(False)
+    if isinstance(a, Obj) and isinstance(b, Obj):
+        if E.class_name(a.cls) != E.class_name(b.cls) or set(a.attrs) != set(b.attrs):
+            return B(False)
+        cs = [E.zbool(E.eq_values(a.attrs[k], b.attrs[k])) for k in sorted(a.attrs)]
+        return z3.And(*cs) if cs else B(True)
+    try:
+        return E.zbool(E.eq_values(a, b))
+    except Unsupported:
+        return B(False)
+
+
+def footprint(method, n):
+    """per map: predicate over the generic key saying that the method may change it."""
+    o, s, c, t, num = G['o'], G['s'], G['c'], G['t'], G['n']
+    F = B(False)
+    fp = {'owner': F, 'study': F, 'trial': F, 'sop': F, 'eop': F}
+    if method in ('create_study', 'update_study', 'update_metadata', 'delete_study'):
+        fp['study'] = skey(o, s) == n
+    if method == 'create_study':
+        fp['owner'] = o == Name.o1(n)
+    if method in ('delete_study', 'update_metadata'):
+        fp['trial'] = skey(o, s) == n
+    if method == 'delete_study':
+        fp['sop'] = skey(o, s) == n
+        fp['eop'] = skey(o, s) == n
+    if method in ('create_trial', 'update_trial', 'delete_trial'):
+        fp['trial'] = tkey(o, s, t) == n
+    if method in ('create_suggestion_operation', 'update_suggestion_operation'):
+        fp['sop'] = okey(o, s, c, num) == n
+    if method in ('create_early_stopping_operation', 'update_early_stopping_operation'):
+        fp['eop'] = ekey(o, s, t) == n
+    return fp
+
+
+def alpha(st):
+    o, s, c, t, n = G['o'], G['s'], G['c'], G['t'], G['n']
+    return {'owner': A_owner(st, o), 'study': A_study(st, o, s), 'trial': A_trial(st, o, s, t), 'sop': A_sop(st, o, s, c, n),
+            'eop': A_eop(st, o, s, t), 'client': A_client(st, o, s, c),
+            'seq_study': A_seq_study(st, o, s), 'seq_trial': A_seq_trial(st, o, s, t), 'seq_sop': A_seq_sop(st, o, s, c, n)}
+
+
+def view_at(D):
+    o, s, c, t, n = G['o'], G['s'], G['c'], G['t'], G['n']
+    return {'study': D['D.study'][skey(o, s)], 'trial': D['D.trial'][tkey(o, s, t)], 'sop': D['D.sop'][okey(o, s, c, n)],
+            'eop': D['D.eop'][ekey(o, s, t)],
+            'seq_study': D['D.seq'][skey(o, s)], 'seq_trial': D['D.seq'][tkey(o, s, t)], 'seq_sop': D['D.seq'][okey(o, s, c, n)]}
+
+
+SCH = {'study': ST, 'trial': T, 'sop': OP, 'eop': EO}
+
+
+def exc_ok(contract_cls, impl_exc):
+    ic = E.class_name(impl_exc.cls)
+    if contract_cls == EITHER:
+        return ic in ('ValueError', 'NotFoundError')
+    return ic == contract_cls
+
+
+def post(p):
+    r = p.value
+    st, method, n = r.st, r.method, r.key
+    P = 'C07.ram.%s.' % method
+    obs = {nm: B(True) for nm in clause_names(method)}
+    ck, cv = r.contract
+    ik, iv = r.impl
+    # ---- outcome
+    if ck == 'raise' and ik == 'raise':
+        obs['error_class'] = B(exc_ok(E.class_name(cv.cls), iv))
+    elif ck != ik:
+        obs['error_class'] = B(False)
+    # ---- result
+    if ck == 'return' and ik == 'return':
+        if method in RESULT_CLAUSES:
+            facts = [(k_, f) for (k_, f) in r.captured]
+            names = RESULT_CLAUSES[method]
+            if len(facts) < len(names):
+                raise Unsupported('the contract of %s states %d facts about its result, expected %d' % (method, len(facts), len(names)))
+            if method in LIST_METHODS:
+                res = iv if isinstance(iv, SymList) else M.to_symlist(None, iv, ELEM[method]()) if isinstance(iv, list) and all(isinstance(x, Msg) for x in iv) else None
+                if res is None or not isinstance(cv, SymList) or res.elem_sort() != cv.elem_sort():
+                    obs['result'] = B(False)
+                else:
+                    for nm, (_, f) in zip(names, facts):
+                        obs[nm] = z3.substitute(f, (cv.n, res.n if z3.is_expr(res.n) else z3.IntVal(res.n)), (cv.arr, res.arr))
+            else:
+                try:
+                    rv = E.to_z3(iv)
+                except Unsupported:
+                    rv = None
+                if rv is None or rv.sort() != I or isinstance(iv, bool):
+                    obs['result'] = B(False)
+                else:
+                    for nm, (_, f) in zip(names, facts):
+                        obs[nm] = z3.substitute(f, (cv, rv))
+        else:
+            obs['result'] = values_equal(cv, iv)
+    if method == 'list_studies' and ck == 'raise' and E.class_name(cv.cls) == 'NotFoundError':
+        ax = [f for k_, f in r.captured if k_ == 'axiom']
+        obs['missing_owner_has_no_study'] = z3.And(*ax) if ax else B(False)
+    # ---- state
+    A, V0, V1 = alpha(st), view_at(r.D0), view_at(r.D1)
+    fp = footprint(method, n)
+    o = G['o']
+    own1 = z3.Store(OWN0, Name.o1(n), True)[o] if (method == 'create_study' and ck == 'return') else OWN0[o]
+    tick1 = r.tick + new_concrete_entries(st)
+    maps = ('study', 'trial', 'sop', 'eop')
+    present = {m: is_some(SCH[m](), A[m]) for m in maps}
+    if ck == 'return':
+        obs['effect'] = z3.And(*([A[m] == V1[m] for m in maps] + [A['owner'] == own1]))
+        obs['effect.stamps'] = z3.And(*([z3.Implies(present[m], A['seq_' + m] == V1['seq_' + m]) for m in ('study', 'trial', 'sop')]
+                                        + [tick1 == r.D1['D.next']]))
+    obs['frame'] = z3.And(*([z3.Implies(z3.Not(fp[m]), A[m] == V0[m]) for m in maps]
+                            + [z3.Implies(z3.Not(fp['owner']), A['owner'] == OWN0[o])]
+                            + [z3.Implies(z3.And(z3.Not(fp[m]), present[m]), A['seq_' + m] == V0['seq_' + m]) for m in ('study', 'trial', 'sop')]))
+    if ik == 'raise':
+        obs['error_leaves_data_unchanged'] = z3.And(*([A[m] == V0[m] for m in maps] + [A['owner'] == OWN0[o], tick1 == r.D0['D.next']]
+                                                      + [z3.Implies(present[m], A['seq_' + m] == V0['seq_' + m]) for m in ('study', 'trial', 'sop')]))
+    # a client node exists iff the client has an operation (Rep for `clients`)
+    witness = [z3.IntVal(1)] + ([Name.n3(n)] if r.args.kind == 'sop' else [])
+    sop_at = lambda num: is_some(OP(), A_sop(st, G['o'], G['s'], G['c'], num))
+    obs['rep.clients'] = z3.And(z3.Implies(A['client'], z3.Or(*[sop_at(w) for w in witness])), z3.Implies(sop_at(G['n']), A['client']))
+    # ---- identity clauses (decided on the python object graph of this path)
+    stored = store_objects(st)
+    if ik == 'return':
+        res_objs = LZ.reach([iv])
+        sh = [v for i_, v in res_objs.items() if i_ in stored]
+        aliased_list = isinstance(iv, SymList) and getattr(iv, 'alias_of', None) is not None
+        if sh:
+            obs['by_value.result'] = B(False)
+        elif aliased_list:
+            obs['by_value.result'] = iv.n <= 0
+        r.shared_result = [repr(v) for v in sh][:4] + (['every element of the returned list is the stored object'] if aliased_list else [])
+    arg_objs = LZ.reach(list(r.args.impl))
+    sh = [v for i_, v in arg_objs.items() if i_ in stored]
+    if sh:
+        obs['by_value.argument'] = B(False)
+    r.shared_arg = [repr(v) for v in sh][:4]
+    dup = tree_violations(st)
+    if dup:
+        obs['tree_ownership'] = B(False)
+    r.dup = dup[:4]
+    unlocked = [(op, d) for (op, d, held) in st.ctx.ops if not held]
+    if unlocked:
+        obs['lock'] = B(False)
+    r.unlocked = unlocked[:6]
+    return [(P + nm, f) for nm, f in obs.items()]
